@@ -294,3 +294,58 @@ func typedTargets(r *sim.R) {
 	// and the way back: the (possibly half-filled) value as a Merge source
 	call(r, "Merge", func() { ucfg.New().Merge(holder.Interface(), opts...) })
 }
+
+// recMap is a recursive map type.
+type recMap map[string]recMap
+
+// recursive: object references that lead back to an object containing them, unpacked into
+// recursive types (the generic targets are E2's; a typed target follows the reference outside the
+// scope in which it was evaluated).
+func recursive(r *sim.R) {
+	t := r.T
+	opts := []ucfg.Option{ucfg.PathSep("."), ucfg.VarExp}
+	node := func(v uint64, next interface{}) map[string]interface{} {
+		return map[string]interface{}{"v": v, "next": next}
+	}
+	var in map[string]interface{}
+	switch t.Choose(6, "cycle-shape") {
+	case 0:
+		in = map[string]interface{}{"next": node(1, "${next}")}
+	case 1:
+		in = map[string]interface{}{"next": node(1, node(2, "${next}"))}
+	case 2:
+		in = map[string]interface{}{"next": node(1, "${other}"), "other": node(2, "${next}")}
+	case 3:
+		in = map[string]interface{}{"next": node(1, "${next.next}")}
+	case 4:
+		in = map[string]interface{}{"l": []interface{}{node(1, "${l.0}")}, "next": "${l.0}"}
+	default:
+		in = map[string]interface{}{"next": node(1, "${env}")} // the object comes from the environment config
+	}
+	env, _ := ucfg.NewFrom(map[string]interface{}{"env": node(3, "${env}")}, opts...)
+	opts = append(opts, ucfg.Env(env))
+	r.Tracef("NewFrom(%v) unpacked into recursive types", in)
+	r.Fault("object reference leading back to an object that contains it")
+	var c *ucfg.Config
+	call(r, "NewFrom", func() { c, _ = ucfg.NewFrom(in, opts...) })
+	if c == nil {
+		return
+	}
+	r.StateOps += 2
+	switch t.Choose(4, "recursive-target") {
+	case 0:
+		call(r, "Unpack", func() { c.Unpack(&selfRef{}, opts...) })
+	case 1:
+		call(r, "Unpack", func() { var m recMap; c.Unpack(&m, opts...) })
+	case 2:
+		call(r, "Unpack", func() {
+			var s struct {
+				Next selfRef
+				L    []selfRef
+			}
+			c.Unpack(&s, opts...)
+		})
+	default:
+		call(r, "Unpack", func() { var m map[string]*selfRef; c.Unpack(&m, opts...) })
+	}
+}
